@@ -23,6 +23,7 @@ ASSUMPTIONS = [
 HEADER = ('From Coq Require Import NArith List Init.Byte.\nFrom RSV Require Import lib.Bytes model.Routing '
           'corr.C19Corr corr.Harness.\nImport ListNotations.\nOpen Scope N_scope.\n')
 SHARD = 250
+KNOWN = {}     # no known finding: every clause of C19 holds of the code
 
 DECOS = ['response', 'stream', 'channel', 'fire_and_forget', 'metadata_push']
 DECO_COQ = {'response': 'DResponse', 'stream': 'DStream', 'channel': 'DChannel', 'fire_and_forget': 'DFnf',
@@ -881,6 +882,10 @@ def correspond(ctx, corr, model_ok):
             what = 'RequestRouter decorators vs model/Routing.v register' if si == 0 else \
                 'RoutingRequestHandler/RequestRouter.route vs model/Routing.v dispatch'
             corr.disagreements.append(dict(owners[si][i][1], what=what))
+
+
+def classify(case):
+    return None
 
 
 def _run_case(case):
